@@ -99,14 +99,28 @@ func (v *AllScopeVariables) Get(s context.Scope, name string) (value.Value, erro
 		REQ_IS_BACKGROUND_FETCH,
 		REQ_IS_CLUSTERING,
 		REQ_IS_ESI_SUBREQ,
-		RESP_STALE,
-		RESP_STALE_IS_ERROR,
-		RESP_STALE_IS_REVALIDATING,
 		WORKSPACE_OVERFLOWED:
 		if v := lookupOverride(v.ctx, name); v != nil {
 			return v, nil
 		}
 		return &value.Boolean{Value: false}, nil
+
+	// writable: false until the VCL assigns them
+	case RESP_STALE:
+		if v := lookupOverride(v.ctx, name); v != nil {
+			return v, nil
+		}
+		return v.ctx.Stale, nil
+	case RESP_STALE_IS_ERROR:
+		if v := lookupOverride(v.ctx, name); v != nil {
+			return v, nil
+		}
+		return v.ctx.StaleIsError, nil
+	case RESP_STALE_IS_REVALIDATING:
+		if v := lookupOverride(v.ctx, name); v != nil {
+			return v, nil
+		}
+		return v.ctx.StaleIsRevalidating, nil
 
 	case CLIENT_DISPLAY_TOUCHSCREEN:
 		if v := lookupOverride(v.ctx, name); v != nil {
@@ -541,7 +555,6 @@ func (v *AllScopeVariables) Get(s context.Scope, name string) (value.Value, erro
 		CLIENT_GEO_COUNTRY_NAME_ASCII,
 		CLIENT_GEO_COUNTRY_NAME_LATIN1,
 		CLIENT_GEO_COUNTRY_NAME_UTF8,
-		CLIENT_GEO_IP_OVERRIDE,
 		CLIENT_GEO_POSTAL_CODE,
 		CLIENT_GEO_PROXY_DESCRIPTION,
 		CLIENT_GEO_PROXY_TYPE,
@@ -551,6 +564,16 @@ func (v *AllScopeVariables) Get(s context.Scope, name string) (value.Value, erro
 		CLIENT_GEO_REGION_UTF8:
 		if v := lookupOverride(v.ctx, name); v != nil {
 			return v, nil
+		}
+		return &value.String{Value: "unknown"}, nil
+
+	case CLIENT_GEO_IP_OVERRIDE:
+		if v := lookupOverride(v.ctx, name); v != nil {
+			return v, nil
+		}
+		// "unknown" until the VCL assigns it
+		if v.ctx.ClientGeoIpOverride != nil && v.ctx.ClientGeoIpOverride.Value != "" {
+			return v.ctx.ClientGeoIpOverride, nil
 		}
 		return &value.String{Value: "unknown"}, nil
 
